@@ -45,7 +45,9 @@ PREFIXES = [("# Filter: ", "# Description: "), ("# rule:", "# desc:"), ("#F ", "
             ("# Règle : ", "# Déscription : "), ("# 规则：", "# 说明："),
             # characters that mean something to re / str.format / %-formatting
             ("# Filter (webmail): ", "# Description (webmail): "), ("# [rule] ", "# [desc] "),
-            ("# rule+ ", "# desc* "), ("# r.le? ", "# d{0}sc %s ")]
+            ("# rule+ ", "# desc* "), ("# r.le? ", "# d{0}sc %s "),
+            # two markers that begin alike (neither is a prefix of the other)
+            ("# Rule ", "# Rule-note: "), ("# ", "## "), ("#N ", "#N: "), ("# Name: ", "# Name's note: ")]
 NAMES = ["rule1", "Rule é", "filter #2", "x: y", "名前", "a-b_c.d", "UPPER lower",
          "n(1)", "50%", "[test]", "a,b", "Filter", "Description", "#hash first", "last hash#",
          "\"q\"", "keep;", "if false {",
